@@ -143,39 +143,41 @@ Qed.
 Print Assumptions C11_publish_one_entry_per_key.
 
 (* ---------------------------------------------------------------------------------------------- *)
-(* Attribution of the entry's fields at full strength -- and finding F8                             *)
+(* Attribution of the entry's fields at full strength (finding F8, repaired by commit cfce1cc)       *)
 (* ---------------------------------------------------------------------------------------------- *)
-(* full strength would be: for every history l of failed-summary records and every s in l, the
-   entry s is counted under shows s's user / destination / process / command line / status.
-   REFUTED for the pinned key (fields joined by single spaces): *)
-Module C11_w.
-  Import Coq.Strings.String.
-Definition f8_a : summary :=
-  {| sm_user := B"root"; sm_groups := [B"root"]; sm_client_ip := B"127.0.0.1";
-     sm_ip := B"169.254.169.254"; sm_port := 80; sm_path := B"/tmp/x/a b"; sm_cmd := B"c 600";
-     sm_status := B"403 Forbidden" |}.
-Definition f8_b : summary :=
-  {| sm_user := B"root"; sm_groups := [B"root"]; sm_client_ip := B"127.0.0.1";
-     sm_ip := B"169.254.169.254"; sm_port := 80; sm_path := B"/tmp/x/a"; sm_cmd := B"b c 600";
-     sm_status := B"403 Forbidden" |}.
-End C11_w.
-Notation f8_a := C11_w.f8_a.
-Notation f8_b := C11_w.f8_b.
+(* the key the code computes NOW: the pinned argument order, joined by the separator the source
+   says -- NUL since the repair (both regenerated from proxy_summary.rs on every run) *)
+Theorem C11_key_order_is_pinned : Consts.summary_key_fields = std_order.
+Proof. reflexivity. Qed.
+Print Assumptions C11_key_order_is_pinned.
 
-Theorem C11_entry_fields_are_callers_refuted :
-  exists (l : list summary) (s : summary) (e : entry),
-    In s l /\ alookup beq (key_string_sep SPACE s) (adds (key_string_sep SPACE) l) = Some e /\
-    shown_e e <> shown s /\ en_count e = 2.
+Theorem C11_key_separator_is_nul : Consts.summary_key_sep = NUL.
+Proof. reflexivity. Qed.
+Print Assumptions C11_key_separator_is_nul.
+
+Theorem C11_key_string_is : key_string = key_string_sep NUL.
+Proof. reflexivity. Qed.
+Print Assumptions C11_key_string_is.
+
+(* FULL STRENGTH, for the key as the code computes it: for every history l of failed-summary records
+   (any callers, any number, any order) and every record s of it, the entry s is counted under
+   shows s's own user, destination, process, command line and status.  Hypothesis [sep_free NUL]:
+   no field contains a NUL byte -- an environment fact, not a restriction on callers: user names,
+   IP texts, executable paths (readlink of /proc/pid/exe), command-line arguments (NUL-separated in
+   /proc/pid/cmdline and joined by spaces) and status texts cannot contain NUL. *)
+Theorem C11_entry_fields_are_callers :
+  forall l : list summary,
+  forallb (sep_free NUL) l = true ->
+  forall s, In s l ->
+  exists e, alookup beq (key_string s) (adds key_string l) = Some e /\ shown_e e = shown s.
 Proof.
-  exists [f8_a; f8_b], f8_b.
-  eexists. split; [right; left; reflexivity|]. split; [vm_compute; reflexivity|].
-  split; [vm_compute; discriminate|reflexivity].
+  intros l Hl. apply entry_fields_partial. apply sep_free_no_collision; auto.
 Qed.
-Print Assumptions C11_entry_fields_are_callers_refuted.
+Print Assumptions C11_entry_fields_are_callers.
 
-(* the strongest true statement, for ANY key function: outside the known class (two records of the
-   history with equal keys and different shown fields) every record is counted under an entry
-   that shows its own fields *)
+(* ... and for ANY key function: outside the collision class (two records of the history with equal
+   keys and different shown fields) every record is counted under an entry that shows its own
+   fields; the class predicate is what the check's Python side evaluates *)
 Theorem C11_entry_fields_are_callers_partial :
   forall (key : summary -> bytes) (l : list summary),
   KnownClass_C11_F8 key l = false ->
@@ -184,14 +186,8 @@ Theorem C11_entry_fields_are_callers_partial :
 Proof. exact entry_fields_partial. Qed.
 Print Assumptions C11_entry_fields_are_callers_partial.
 
-(* the witness is in the class *)
-Theorem C11_known_class_witness :
-  KnownClass_C11_F8 (key_string_sep SPACE) [f8_a; f8_b] = true.
-Proof. vm_compute. reflexivity. Qed.
-Print Assumptions C11_known_class_witness.
-
-(* a sufficient structural condition: histories whose key fields do not contain the separator
-   (any non-digit separator byte) are outside the class ... *)
+(* histories whose key fields do not contain the separator (any non-digit separator byte) are
+   outside the class *)
 Theorem C11_separator_free_fields_never_collide :
   forall (sep : N) (l : list summary),
   is_digit sep = false -> forallb (sep_free sep) l = true ->
@@ -199,33 +195,43 @@ Theorem C11_separator_free_fields_never_collide :
 Proof. exact sep_free_no_collision. Qed.
 Print Assumptions C11_separator_free_fields_never_collide.
 
-(* ... which is the theorem for the REPAIRED key (patches/fix-C11-summary-key.diff: the fields
-   joined by NUL, a byte no user name, address, path, command-line argument or status text can
-   contain): full-strength attribution for every history of NUL-free records *)
-Theorem C11_entry_fields_are_callers_fixed :
-  forall l : list summary,
-  forallb (sep_free NUL) l = true ->
-  forall s, In s l ->
-  exists e, alookup beq (key_string_sep NUL s) (adds (key_string_sep NUL) l) = Some e /\
-            shown_e e = shown s.
+(* DOCUMENTED LEMMA (the defect as it was, finding F8): with the fields joined by single spaces --
+   the key up to commit cfce1cc -- full-strength attribution is REFUTED: the executable ".../a b"
+   with command line "c 600" and the executable ".../a" with command line "b c 600" (same user and
+   destination) share one entry, which shows the first caller's fields with both callers' counts.
+   Reproduced on the real code before the repair (notes/C11.md). *)
+Module C11_w.
+  Import Coq.Strings.String.
+  Definition f8_a : summary :=
+    {| sm_user := B"root"; sm_groups := [B"root"]; sm_client_ip := B"127.0.0.1";
+       sm_ip := B"169.254.169.254"; sm_port := 80; sm_path := B"/tmp/x/a b"; sm_cmd := B"c 600";
+       sm_status := B"403 Forbidden" |}.
+  Definition f8_b : summary :=
+    {| sm_user := B"root"; sm_groups := [B"root"]; sm_client_ip := B"127.0.0.1";
+       sm_ip := B"169.254.169.254"; sm_port := 80; sm_path := B"/tmp/x/a"; sm_cmd := B"b c 600";
+       sm_status := B"403 Forbidden" |}.
+End C11_w.
+Notation f8_a := C11_w.f8_a.
+Notation f8_b := C11_w.f8_b.
+
+Theorem C11_space_joined_key_refuted :
+  exists (l : list summary) (s : summary) (e : entry),
+    In s l /\ alookup beq (key_string_sep SPACE s) (adds (key_string_sep SPACE) l) = Some e /\
+    shown_e e <> shown s /\ en_count e = 2.
 Proof.
-  intros l Hl. apply entry_fields_partial. apply sep_free_no_collision; auto.
+  exists [f8_a; f8_b], f8_b.
+  eexists. split; [right; left; reflexivity|]. split; [vm_compute; reflexivity|].
+  split; [vm_compute; discriminate|reflexivity].
 Qed.
-Print Assumptions C11_entry_fields_are_callers_fixed.
+Print Assumptions C11_space_joined_key_refuted.
 
-(* the key the code computes NOW has the argument order the theorems above are about; its
-   separator is whatever the source says (32 at the pinned commit, 0 after the repair) *)
-Theorem C11_key_order_is_pinned : Consts.summary_key_fields = std_order.
-Proof. reflexivity. Qed.
-Print Assumptions C11_key_order_is_pinned.
-
-Theorem C11_key_string_is : key_string = key_string_sep Consts.summary_key_sep.
-Proof. reflexivity. Qed.
-Print Assumptions C11_key_string_is.
-
-Theorem C11_current_separator_is_not_a_digit : is_digit Consts.summary_key_sep = false.
-Proof. reflexivity. Qed.
-Print Assumptions C11_current_separator_is_not_a_digit.
+(* the same two records under the repaired key: two entries, each showing its own caller *)
+Theorem C11_repaired_key_separates_the_witness :
+  KnownClass_C11_F8 (key_string_sep SPACE) [f8_a; f8_b] = true /\
+  KnownClass_C11_F8 key_string [f8_a; f8_b] = false /\
+  length (adds key_string [f8_a; f8_b]) = 2%nat.
+Proof. vm_compute. repeat split. Qed.
+Print Assumptions C11_repaired_key_separates_the_witness.
 
 (* ---------------------------------------------------------------------------------------------- *)
 (* Non-vacuity                                                                                      *)
